@@ -45,11 +45,75 @@ def classify(v):
     return f'{form}:{order}:{dt}'
 
 
+# ---- degenerate-but-legitimate value classes (round 6) -----------------------------------
+# A case may carry a value class `vc` (0 = generic values, the classes of rounds 1-5).  For vc != 0
+# every factory that hands out numbers builds them so that one normalisation step of the library
+# is *exactly* the identity on them ("nothing to do": centred already, unit length already, ranked
+# already, ...), everything else about the values staying generic — one degenerate property per
+# class, because two at once mask each other (on rows that are centred *and* of unit length an
+# in-place division by the row norms changes nothing).  All values are small dyadic rationals:
+# sums, means, sums of squares and their square roots are exact in float64 in any order of
+# summation, so `mean == 0`, `norm == 1`, `rank == value` hold bit for bit.
+#   vc   measurements (n_obs x n_channel [x n_time])     RDM vectors (valid entries of every row)
+#    1   zero-row-mean   every pattern has mean 0        zero-mean
+#    2   zero-col-mean   every channel has mean 0        sorted        ascending
+#    3   unit-row-norm   every pattern has length 1      unit-norm     root sum of squares 1
+#    4   zero-row        two patterns are all zero       nonneg        >= 0, two entries exactly 0
+#    5   const-row       every pattern is constant       already-ranked  a permutation of 1..m
+#    7   —                                               unit-rms      root mean square 1
+#    6   auxiliary arguments: weights summing to 1 (per pair / per RDM), precision = identity,
+#        sigma_k = identity / ones, theta = unit vector / convex weights, MDS weight with maximum 1
+M_CLASS = {1: 'zero-row-mean', 2: 'zero-col-mean', 3: 'unit-row-norm', 4: 'zero-row', 5: 'const-row'}
+D_CLASS = {1: 'zero-mean', 2: 'sorted', 3: 'unit-norm', 4: 'nonneg', 5: 'already-ranked', 7: 'unit-rms'}
+AUX_VC = 6
+VCLASSES = (1, 2, 3, 4, 5, 6, 7)
+# value class -> substrings of the method names whose normalisation step is the identity on it
+AFFINITY = {'zero-mean': ('corr',), 'unit-norm': ('cosine',), 'unit-rms': ('cosine', 'simple'),
+            'already-ranked': ('spearman', 'rho', 'kendall', 'tau', 'average', 'min', 'dense'),
+            'sorted': ('spearman', 'rho', 'kendall', 'tau'),
+            'zero-row-mean': ('correlation',), 'unit-row-norm': ('correlation',), 'zero-row': ('correlation',),
+            'aux': ('cov', 'mahalanobis', 'crossnobis', 'riem')}
+_CAN = {}
+
+
+def _can(rem, k):
+    """is `rem` a sum of k integer squares?"""
+    if k == 0:
+        return rem == 0
+    key = (rem, k)
+    if key not in _CAN:
+        a, ok = 0, False
+        while a * a <= rem and not ok:
+            ok = _can(rem - a * a, k - 1)
+            a += 1
+        _CAN[key] = ok
+    return _CAN[key]
+
+
+def sq_vector(rng, n, total):
+    """n non-negative integers with the given sum of squares, spread over the entries where the
+       arithmetic allows (drawn from `rng`)"""
+    out, rem = [], total
+    for k in range(n, 0, -1):
+        cands = [a for a in range(int(rem ** 0.5) + 1) if a * a <= rem and _can(rem - a * a, k - 1)]
+        # prefer entries of the typical size sqrt(rem / k): no row of zeros with a single 1
+        typ = (rem / k) ** 0.5
+        cands.sort(key=lambda a: abs(a - typ))
+        a = rng.choice(cands[:3])
+        out.append(a)
+        rem -= a * a
+    rng.shuffle(out)
+    return out
+
+
 class World:
     """small, seeded universe of rsatoolbox objects"""
 
-    def __init__(self, seed):
+    def __init__(self, seed, vc=0):
         self.rng = random.Random(seed)
+        self.vrng = random.Random(seed * 31 + vc)    # draws of the value classes (keeps `rng` as it was)
+        self.vc = vc
+        self.used = set()               # which value-class hooks the recipe went through: m / d / dpos / aux
         self.seed = seed
         self._npick = 0
         self.tags = set()
@@ -97,18 +161,119 @@ class World:
         self.tag('form:' + f)
         return tuple(items) if f == 'tuple' else list(items)
 
-    def with_nans(self, d, nan=None):
-        """put NaNs into a stack of RDM vectors according to the seed's mode"""
+    def with_nans(self, d, nan=None, positive=False):
+        """put NaNs into a stack of RDM vectors according to the seed's mode; the valid entries of
+           every row are then brought into the case's value class"""
         mode = nan or self.nan_mode
         self.tag('nan:' + mode)
         d = np.array(d, dtype=float)
         npair = d.shape[1]
-        if mode == 'none' or npair < 3:
+        if not (mode == 'none' or npair < 3):
+            j0 = self.seed % npair
+            for r in range(d.shape[0]):
+                d[r, j0 if mode == 'common' else (j0 + r) % npair] = np.nan
+        return self.d_values(d, positive)
+
+    # ---- value classes (round 6) ----------------------------------------------------------
+    def d_values(self, d, positive=False):
+        """RDM vectors of the case's value class: the class holds for the valid (non-NaN) entries of
+           every row, exactly"""
+        if getattr(self, '_no_vc', False):
             return d
-        j0 = self.seed % npair
+        self.used.add('dpos' if positive else 'd')
+        c = D_CLASS.get(self.vc)
+        if c is None or (positive and c in ('zero-mean', 'nonneg')):
+            return d
         for r in range(d.shape[0]):
-            d[r, j0 if mode == 'common' else (j0 + r) % npair] = np.nan
+            ok = ~np.isnan(d[r])
+            v = d[r, ok]
+            m = len(v)
+            if m < 2:
+                continue
+            if c == 'zero-mean':
+                v[-1] = -v[:-1].sum()
+            elif c == 'sorted':
+                v = np.sort(v)
+            elif c == 'nonneg':
+                v = np.abs(v)
+                v[0] = v[-1] = 0.0
+            elif c == 'already-ranked':
+                v = np.argsort(np.argsort(v)) + 1.0
+            else:
+                # unit-norm: sum of squares 1 (entries k/16); unit-rms: mean square 1 (entries k/4)
+                ints = sq_vector(self.vrng, m, 256 if c == 'unit-norm' else 16 * m)
+                v = np.array(ints, dtype=float) / (16.0 if c == 'unit-norm' else 4.0)
+                if not positive:
+                    v[self.vrng.choice([i for i in range(m) if v[i] != 0])] *= -1.0
+            d[r, ok] = v
+        self.tag('values:rdm:' + c)
         return d
+
+    def m_values(self, m):
+        """measurements (patterns x channels [x time]) of the case's value class; patterns are rows,
+           channels axis 1"""
+        if getattr(self, '_no_vc', False):
+            return m
+        self.used.add('m')
+        c = M_CLASS.get(self.vc)
+        if c is None:
+            return m
+        m = np.array(m, dtype=float)
+        if c == 'zero-row-mean':
+            m[:, -1] = -m[:, :-1].sum(axis=1)
+        elif c == 'zero-col-mean':
+            m[-1] = -m[:-1].sum(axis=0)
+        elif c == 'zero-row':
+            m[0] = 0.0
+            m[-1] = 0.0
+        elif c == 'const-row':
+            m[:] = m[:, :1]
+        else:
+            mm = np.moveaxis(m, 1, -1)          # view: channel axis last
+            for idx in np.ndindex(mm.shape[:-1]):
+                ints = sq_vector(self.vrng, mm.shape[-1], 256)
+                mm[idx] = [(a * self.vrng.choice([1, -1])) / 16.0 for a in ints]
+        self.tag('values:' + c)
+        return m
+
+    def as_is(self, generic):
+        """option `descriptor` of the RDM estimators in a degenerate-value case: the values only
+           matter where the caller's array is used as it is, so the aggregation step is switched
+           off — no descriptor (every observation a pattern) or, by parity of the seed, a descriptor
+           whose values are all distinct (`trial`: the average over one observation).  Generic
+           cases keep the recipe's own rotation."""
+        if self.vc not in M_CLASS:
+            return generic
+        d = [None, 'trial'][self.seed % 2]
+        self.tag('values:as-is:' + ('none' if d is None else 'unique'))
+        self.tag('values:' + M_CLASS[self.vc] + '+as-is')
+        return d
+
+    def pick_method(self, options):
+        """a `method` option.  Generic cases: the seed's rotation.  Degenerate-value cases: the
+           rotation among the methods whose normalisation step the value class makes the identity
+           (zero mean <-> correlation, unit norm / RMS <-> cosine, ranked / sorted <-> the rank
+           measures, identity precision / sigma_k <-> the whitened measures), so that the class
+           is actually on the path of the call; the recipe's own rotation when no method matches"""
+        o = self.pick(options)
+        c = 'aux' if self.vc == AUX_VC else M_CLASS.get(self.vc) or D_CLASS.get(self.vc)
+        keys = AFFINITY.get(c, ())
+        name = lambda x: x if isinstance(x, str) else str(x.get('method', '')) if isinstance(x, dict) else ''  # noqa: E731
+        match = [x for x in options if any(k in name(x) for k in keys)]
+        if c in D_CLASS.values() or c in M_CLASS.values():
+            match = [x for x in match if 'list' not in name(x)] or match
+        if not match:
+            return o
+        self.tag('values:method-matched')
+        return match[self.seed % len(match)]
+
+    def aux(self, name):
+        """True when the case's class makes the auxiliary argument `name` degenerate"""
+        self.used.add('aux')
+        if self.vc != AUX_VC:
+            return False
+        self.tag('values:' + name)
+        return True
 
     def eval_nan(self):
         """compare() rejects differing NaN positions: models and data share the common mask"""
@@ -117,11 +282,17 @@ class World:
     def sigma_k(self, n, vector_ok=True):
         """None / pattern covariance matrix / variance vector, as real float arrays"""
         k = self.pick(['none', 'matrix', 'vector'] if vector_ok else ['matrix', 'none'])
+        if self.vc == AUX_VC and k == 'none':
+            k = 'matrix'            # the auxiliary class is about the argument being there
         self.tag('sigma_k:' + k)
+        self.used.add('aux')
         if k == 'none':
             return None
+        ident = self.aux('sigma-identity')      # "nothing to whiten"
         if k == 'vector':
-            return np.linspace(0.5, 1.5, n)
+            return np.ones(n) if ident else np.linspace(0.5, 1.5, n)
+        if ident:
+            return np.eye(n)
         m = np.eye(n) * 1.5
         m[0, 1] = m[1, 0] = 0.25
         return m
@@ -131,9 +302,16 @@ class World:
            a descriptor name holding either, or None; the arrays are real float ndarrays that a
            careless asarray + in-place write would corrupt"""
         k = self.pick(['2d', '1d', 'name-2d', 'name-1d', 'none'])
+        if self.vc == AUX_VC and k == 'none':
+            k = '1d'
         self.tag('weights:' + k)
         w2 = np.linspace(0.5, 2.0, r.dissimilarities.size).reshape(r.dissimilarities.shape)
         w1 = np.linspace(1.0, 2.0, r.n_rdm)
+        if self.aux('weights-sum-1'):
+            # normalised already: the weights of every pair (and the per-RDM weights) sum to 1
+            n = r.n_rdm
+            w1 = np.array([1.0] if n == 1 else [0.75, 0.25] if n == 2 else [0.5, 0.25] + [0.25 / (n - 2)] * (n - 2))
+            w2 = np.repeat(w1.reshape(-1, 1), r.dissimilarities.shape[1], axis=1)
         if k == '2d':
             return w2
         if k == '1d':
@@ -233,7 +411,7 @@ class World:
         d = np.stack([self._vals(npair) for _ in range(n_rdm)])
         if positive:
             d = np.abs(d) + 0.125
-        d = self.with_nans(d, nan)
+        d = self.with_nans(d, nan, positive)
         # condition labels (str): unsorted and repeat-free, ascending for rot 2 
         if not conds:
             conds = self.conds(n_cond)
@@ -279,7 +457,7 @@ class World:
         from rsatoolbox.data.dataset import Dataset
         n_cond = n_cond or self.n_cond
         n_obs = n_cond * n_rep
-        m = self._vals(n_obs * n_ch, -20, 60).reshape(n_obs, n_ch)
+        m = self.m_values(self._vals(n_obs * n_ch, -20, 60).reshape(n_obs, n_ch))
         obs = [(c, r) for r in range(n_rep) for c in range(n_cond)]
         self.rng.shuffle(obs)
         od, cd = self._ds_desc(obs, n_obs, n_ch, ['V1', 'V1', 'V2', 'V2', 'IT'])
@@ -306,14 +484,17 @@ class World:
         return od, cd
 
     def count_dataset(self):
+        # counts are positive: no degenerate class of the table above applies
+        no_vc, self._no_vc = getattr(self, '_no_vc', False), True
         ds = self.dataset()
+        self._no_vc = no_vc
         ds.measurements = np.abs(ds.measurements) + 1.0
         return ds
 
     def tdataset(self, n_cond=3, n_rep=2, n_ch=3, n_time=4):
         from rsatoolbox.data.dataset import TemporalDataset
         n_obs = n_cond * n_rep
-        m = self._vals(n_obs * n_ch * n_time, -20, 80).reshape(n_obs, n_ch, n_time)
+        m = self.m_values(self._vals(n_obs * n_ch * n_time, -20, 80).reshape(n_obs, n_ch, n_time))
         obs = [(c, r) for r in range(n_rep) for c in range(n_cond)]
         self.rng.shuffle(obs)
         od, cd = self._ds_desc(obs, n_obs, n_ch, ['V1', 'V2', 'V2'])
@@ -338,6 +519,7 @@ class World:
     def result(self):
         from rsatoolbox.inference import eval_fixed
         self._no_nan = True
+        self._no_vc = True      # a Result is not an array argument: its methods see no value class
         return eval_fixed(self.models(), self.data_rdms(), method='cosine')
 
     def evaluations(self, n_boot=6, n_model=2):
@@ -346,9 +528,19 @@ class World:
 
     def prec(self, n=5):
         self.tag('noise:array')
+        if self.aux('prec-identity'):
+            return np.eye(n)
         a = np.eye(n) * 2.0
         a[0, 1] = a[1, 0] = 0.25
         return a
+
+    def theta(self, kind):
+        """parameter vector of a model: generic / (class 6) a unit vector resp. convex weights"""
+        th = {'fixed': None, 'weighted': np.array([0.5, 1.5]), 'select': 1,
+              'interpolate': np.array([0.25, 0.75])}[kind]
+        if isinstance(th, np.ndarray) and self.aux('theta-unit'):
+            th = np.array([0.0, 1.0]) if kind == 'weighted' else np.array([0.5, 0.5])
+        return th
 
 
 # ---- per-callable argument recipes ----------------------------------------------------
@@ -420,7 +612,7 @@ def _recipes():
     for fn_ in ('minmax_transform', 'positive_transform', 'sqrt_transform'):
         R['rdm.transform.' + fn_] = lambda w: (None, [w.rdms(n_rdm=w.stack())], {})
     R['rdm.transform.rank_transform'] = lambda w: (None, [w.rdms(n_rdm=w.stack())],
-                                                   {'method': w.pick(['average', 'min', 'dense'])})
+                                                   {'method': w.pick_method(['average', 'min', 'dense'])})
     R['inference.result.Result.summary'] = lambda w: (w.result(), [], {})
 
     @reg('rdm.rdms.RDMs.mean')
@@ -506,7 +698,7 @@ def _recipes():
 
     @reg('rdm.combine.rescale')
     def _(w):
-        return None, [w.rdms(n_rdm=w.stack(), positive=True)], {'method': w.pick(['evidence', 'setsize', 'simple'])}
+        return None, [w.rdms(n_rdm=w.stack(), positive=True)], {'method': w.pick_method(['evidence', 'setsize', 'simple'])}
 
     # --- rdm.compare
     def cmp(w, sig=False, **kw):
@@ -521,7 +713,7 @@ def _recipes():
                'compare_kendall_tau', 'compare_kendall_tau_a', 'compare_neg_riemannian_distance',
                'compare_rho_a', 'compare_spearman'):
         R['rdm.compare.' + nm] = (lambda sig: lambda w: cmp(w, sig=sig))('cov_weighted' in nm or 'riemann' in nm)
-    R['rdm.compare.compare'] = lambda w: cmp(w, sig=True, method=w.pick(
+    R['rdm.compare.compare'] = lambda w: cmp(w, sig=True, method=w.pick_method(
         ['cosine_cov', 'cosine', 'corr_cov', 'corr', 'spearman', 'tau-a', 'rho-a', 'kendall']))
 
     @reg('rdm.pairs.pairs_by_percentile')
@@ -533,6 +725,14 @@ def _recipes():
     def rm_kw(w, kw):
         kw['remove_mean'] = w.pick([False, True])
         w.tag('remove_mean:' + str(kw['remove_mean']).lower())
+        return kw
+
+    def as_is(w, kw):
+        """degenerate-value case: the estimator gets the caller's array without an averaging step"""
+        kw['descriptor'] = w.as_is(kw.get('descriptor'))
+        if kw['descriptor'] is None:
+            kw.pop('cv_descriptor', None)
+            w.tag('descriptor:none')
         return kw
 
     def calc(method=None, rm=False, **extra):
@@ -550,11 +750,13 @@ def _recipes():
                     kw['descriptor'] = None
                     kw.pop('cv_descriptor', None)
                     w.tag('descriptor:none')
+            if method not in ('crossnobis', 'poisson', 'poisson_cv') and w.vc in M_CLASS:
+                as_is(w, kw)
             return None, [ds], kw
         return f
     def calc_any(w):
-        m = w.pick(['mahalanobis', 'crossnobis', 'euclidean', 'correlation', 'poisson', 'poisson_cv',
-                    'list', 'list-nodesc', 'list-noise'])
+        m = w.pick_method(['mahalanobis', 'crossnobis', 'euclidean', 'correlation', 'poisson', 'poisson_cv',
+                           'list', 'list-nodesc', 'list-noise'])
         if m.startswith('list'):
             # the iterable branch: one RDM per dataset, merged by from_partials / concat
             n = w.size((1, 2, 3))
@@ -567,7 +769,8 @@ def _recipes():
                 w.tag('noise:array')
                 return None, [dss], {'method': 'mahalanobis', 'descriptor': 'conds',
                                      'noise': [w.prec() for _ in range(n)]}
-            return None, [dss], {'method': 'euclidean', 'descriptor': 'conds'}
+            return None, [dss], as_is(w, {'method': w.pick(['euclidean', 'correlation']), 'descriptor': 'conds'}) \
+                if w.vc in M_CLASS else {'method': 'euclidean', 'descriptor': 'conds'}
         extra = {'descriptor': 'conds', 'cv_descriptor': 'runs'}
         if m in ('mahalanobis', 'crossnobis'):
             extra['noise'] = w.prec()
@@ -578,17 +781,18 @@ def _recipes():
     R['rdm.calc.calc_rdm_euclidean'] = calc(rm=True, descriptor='conds')
 
     R['rdm.calc.calc_rdm_mahalanobis'] = lambda w: (w.tag('noise:array'), (None, [w.dataset()], rm_kw(
-        w, {'descriptor': w.pick(['conds', None, 'conds']), 'noise': w.prec()})))[1]
+        w, as_is(w, {'descriptor': w.pick(['conds', None, 'conds']), 'noise': w.prec()}) if w.vc in M_CLASS else
+        {'descriptor': w.pick(['conds', None, 'conds']), 'noise': w.prec()})))[1]
     R['rdm.calc.calc_rdm_crossnobis'] = lambda w: (None, [w.dataset(), 'conds'],
                                                   rm_kw(w, {'noise': w.prec(), 'cv_descriptor': 'runs'}))
     R['rdm.calc.calc_rdm_poisson'] = lambda w: (None, [w.count_dataset()], {'descriptor': 'conds'})
     R['rdm.calc.calc_rdm_poisson_cv'] = lambda w: (None, [w.count_dataset()],
                                                   {'descriptor': 'conds', 'cv_descriptor': 'runs'})
-    R['rdm.calc.calc_rdm_movie'] = lambda w: (None, [w.tdataset()], w.pick([
+    R['rdm.calc.calc_rdm_movie'] = lambda w: (None, [w.tdataset()], w.pick_method([
         {'method': 'euclidean', 'descriptor': 'conds'},
         {'method': 'mahalanobis', 'descriptor': 'conds', 'noise': w.prec(3)}]))
     R['rdm.calc_unbalanced.calc_rdm_unbalanced'] = lambda w: (
-        None, [w.dataset()], w.pick([
+        None, [w.dataset()], w.pick_method([
             {'method': 'crossnobis', 'descriptor': 'conds', 'cv_descriptor': 'runs', 'noise': w.prec()},
             {'method': 'euclidean', 'descriptor': 'conds', 'cv_descriptor': 'runs'},
             {'method': 'mahalanobis', 'descriptor': 'conds', 'noise': w.prec()}]))
@@ -678,7 +882,7 @@ def _recipes():
     R['data.computations.average_dataset_by'] = lambda w: (None, [w.dataset(), 'conds'], {})
 
     def resid(w):
-        return w._vals(40, -20, 60).reshape(8, 5)
+        return w.m_values(w._vals(40, -20, 60).reshape(8, 5))
     for nm in ('cov_from_residuals', 'prec_from_residuals'):
         R['data.noise.' + nm] = lambda w: (
             None, [w.pick([lambda: resid(w), lambda: [resid(w) for _ in range(w.size((2, 1, 3)))],
@@ -700,10 +904,8 @@ def _recipes():
                     return None, ['m', r.dissimilarities[0].copy()], {}
                 return None, ['m', r.dissimilarities.copy()], {}
             R['model.model.' + cls] = ctor
-            th = {'fixed': None, 'weighted': np.array([0.5, 1.5]), 'select': 1,
-                  'interpolate': np.array([0.25, 0.75])}[k]
-            R[f'model.model.{cls}.predict'] = lambda w: (w.model(k), [], {'theta': th})
-            R[f'model.model.{cls}.predict_rdm'] = lambda w: (w.model(k), [], {'theta': th})
+            R[f'model.model.{cls}.predict'] = lambda w: (w.model(k), [], {'theta': w.theta(k)})
+            R[f'model.model.{cls}.predict_rdm'] = lambda w: (w.model(k), [], {'theta': w.theta(k)})
         bindm(k, cls)
     R['model.model.Model'] = lambda w: (None, ['m'], {})
 
@@ -713,7 +915,7 @@ def _recipes():
     R['model.model.Model.predict'] = lambda w: (base_model(w), [], {})
     R['model.model.Model.predict_rdm'] = lambda w: (base_model(w), [], {})
     R['model.model.Model.fit'] = lambda w: (w.model(w.pick(['fixed', 'weighted', 'select', 'interpolate'])),
-                                            [w.data_rdms()], w.pick([
+                                            [w.data_rdms()], w.pick_method([
                                                 {'method': 'cosine'},
                                                 {'method': 'cosine_cov', 'sigma_k': w.sigma_k(w.n_cond)}]))
     R['model.model.Model.to_dict'] = lambda w: (w.model(w.pick(['fixed', 'weighted'])), [], {})
@@ -733,7 +935,7 @@ def _recipes():
                   ('fit_regress', 'weighted'), ('fit_regress_nn', 'weighted')):
         def fitrec(k):
             def f(w):
-                kw = {'method': w.pick(['cosine_cov', 'cosine', 'corr_cov', 'corr'])}
+                kw = {'method': w.pick_method(['cosine_cov', 'cosine', 'corr_cov', 'corr'])}
                 if 'cov' in kw['method']:
                     kw['sigma_k'] = w.sigma_k(w.n_cond, vector_ok=False)
                 data = w.data_rdms()
@@ -774,10 +976,11 @@ def _recipes():
     def ev_theta(**kw):
         def f(w):
             k = dict(kw)
-            th = (w.seed // 2) % 2 == 0
+            th = (w.seed // 2) % 2 == 0 or w.vc == AUX_VC
+            w.used.add('aux')
             if th:
                 # one parameter vector per model (fixed: none, weighted: 2 weights), float arrays
-                k['theta'] = [None, np.array([0.75, 1.25])]
+                k['theta'] = [None, np.array([0.0, 1.0]) if w.aux('theta-unit') else np.array([0.75, 1.25])]
                 w.tag('theta:array')
             return None, [models_arg(w, th), w.data_rdms()], k
         return f
@@ -889,10 +1092,10 @@ def _recipes():
         {'noise_ceil_var': np.array([[0.01, 0.02], [0.01, 0.02]]), 'dof': 5})
     R['util.inference_util.pair_tests'] = lambda w: (
         None, [w.evaluations()], {'diff_var': np.array([0.02]), 'dof': 5})
-    R['util.inference_util.pool_rdm'] = lambda w: (None, [w.data_rdms(n_rdm=w.stack((4, 1, 2)))], {'method': w.pick(
+    R['util.inference_util.pool_rdm'] = lambda w: (None, [w.data_rdms(n_rdm=w.stack((4, 1, 2)))], {'method': w.pick_method(
         ['cosine', 'corr', 'spearman', 'rho-a', 'cosine_cov', 'neg_riem_dist'])})
     def pool(w):
-        m = w.pick(['cosine_cov', 'euclid', 'corr_cov', 'cosine', 'corr', 'spearman', 'rho-a', 'kendall'])
+        m = w.pick_method(['cosine_cov', 'euclid', 'corr_cov', 'cosine', 'corr', 'spearman', 'rho-a', 'kendall'])
         kw = {'method': m}
         if 'cov' in m:
             kw['sigma_k'] = w.sigma_k(w.n_cond, vector_ok=False)
@@ -933,7 +1136,7 @@ def _recipes():
 
     @reg('util.searchlight.get_searchlight_RDMs')
     def _(w):
-        data = w._vals(8 * 27, -20, 400).reshape(8, 27)
+        data = w.m_values(w._vals(8 * 27, -20, 400).reshape(8, 27))
         centers = np.array([13, 14])
         neighbors = [np.array([4, 10, 12, 13, 14, 16, 22]), np.array([5, 11, 13, 14, 17, 23])]
         events = np.array([0, 1, 2, 3, 0, 1, 2, 3])
@@ -951,8 +1154,12 @@ def _recipes():
     def mds_kw(w, n=5):
         kw = {}
         k = w.pick(['none', 'weight', 'weight+init'])
+        w.used.add('aux')
+        if k == 'none' and w.vc == AUX_VC:
+            k = 'weight'
         if k != 'none':
-            wt = (np.ones((n, n)) - np.eye(n)) * 2.0      # maximum is not 1: a normalisation shows
+            # maximum is not 1: a normalisation shows (class 6: maximum exactly 1, "nothing to do")
+            wt = (np.ones((n, n)) - np.eye(n)) * (1.0 if w.aux('weight-max-1') else 2.0)
             wt[0, 1] = wt[1, 0] = 0.5
             kw['weight'] = wt
         if k == 'weight+init':
@@ -1054,18 +1261,19 @@ def _tag_selection(w, qualname, self_obj, args, kwargs):
             w.tag('sel:pattern:array:asc+shuffle')
 
 
-def build_call(qualname, seed):
+def build_call(qualname, seed, vc=0):
     key = qualname[len('rsatoolbox.'):]
     if qualname in NO_FACTORY:
         raise Uncovered(NO_FACTORY[qualname])
     if key not in RECIPES:
         raise Uncovered('no argument factory')
-    w = World(seed)
+    w = World(seed, vc or 0)
     self_obj, args, kwargs = RECIPES[key](w)
     args, kwargs = list(args), dict(kwargs)
     _auto_options(w, qualname, 'method' if self_obj is not None else 'function', args, kwargs)
     _tag_selection(w, qualname, self_obj, args, kwargs)
     build_call.last_tags = sorted(w.tags)
+    build_call.last_used = set(w.used)
     return self_obj, args, kwargs
 
 
